@@ -57,6 +57,9 @@ func NormalizeCode(c Code) Code {
 	code = strings.TrimSpace(code)
 	code = codeSeparatorRegexp.ReplaceAllString(code, "$1")
 	code = codeInvalidCharsRegexp.ReplaceAllString(code, "")
+	// collapsing separators or removing characters may leave white space at
+	// the edges again; without this a second pass would give another result
+	code = strings.TrimSpace(code)
 	return Code(code)
 }
 
